@@ -302,6 +302,10 @@ class Between(Edit):
         b += len(self.end)
         self.sha = hashlib.sha256(text[a:b].encode()).hexdigest()[:12]
         self.dropped = text[a:b]
+        # a hole stands for a value; text that can leave the function (`return`, `?`) is more than that and is not dropped silently
+        for kind, ta, tb in scan(self.dropped):
+            if (kind == "ident" and self.dropped[ta:tb] == "return") or (kind == "punct" and self.dropped[ta:tb] == "?"):
+                raise ExtractError(f"{ctx}: the text of the hole `{self.start[:40]} …` contains `{self.dropped[ta:tb]}`: control flow leaves the hole, its assumed contract does not describe it")
         if self.pin and self.pin != self.sha:
             raise ExtractError(f"{ctx}: text inside the hole `{self.start[:40]} …` changed (sha256 {self.sha}, pinned {self.pin}): its assumed contract no longer describes it")
         return text[:a] + self.new + text[b:]
